@@ -8,7 +8,7 @@ use crate::engine::{Case, Ctx, Outcome, Property, Violation};
 use crate::exec::Status;
 use crate::oracle;
 use crate::plan::{Item, Plan};
-use crate::props::c17::{gen_sink_plan, locate_fault, locate_name_fault, name_flip_item, FailDesc};
+use crate::props::c17::{comma_flip_item, gen_sink_plan, locate_fault, locate_name_fault, locate_op_fault, name_flip_item, op_flip_item, FailDesc};
 use crate::rng::Rng;
 use crate::world::World;
 
@@ -88,18 +88,18 @@ impl Property for C18 {
         if tier == "thorough" { 1_500_000 } else { 40_000 }
     }
     fn rule(&self) -> String {
-        "case = (W2 call-tree IR rendered by the layout printer under a seeded layout: tabs, CR LF, blank lines, `;` terminators, comments with multi-byte text, continuation breaks after every documented continuation token, multi-line and multi-byte string literals before call sites) x (write error on fd 1 at a write index => the print call and every active call become reported positions | the first byte of a call's name corrupted in storage => an undefined-name position | one inter-token space replaced by a character no token starts with, incl. multi-byte ones, optionally delivered across read-chunk boundaries => a lexical error position); oracle: every <line>:<col> on stderr line 1 and on each stack-trace line equals the printer's recorded position of that call's first token; the lexical error position equals the position of the corrupted byte; non-trivial = a fault fired; distinct = distinct (program text, plan)".to_string()
+        "case = (W2 call-tree IR rendered by the layout printer under a seeded layout: tabs, CR LF, blank lines, `;` terminators, comments with multi-byte text, continuation breaks after every documented continuation token, multi-line and multi-byte string literals before call sites) x (write error on fd 1 at a write index => the print call and every active call become reported positions | the first byte of a call's name corrupted in storage => an undefined-name position | a '+' between strings/lists corrupted into '-' => an operator position | one inter-token space replaced by a character no token starts with, incl. multi-byte ones, optionally delivered across read-chunk boundaries => a lexical error position | an inter-token space outside all brackets replaced by ',' => a syntax-error position); oracle: every <line>:<col> on stderr line 1 and on each stack-trace line equals the printer's recorded position of that call's first token; the lexical error position equals the position of the corrupted byte; non-trivial = a fault fired; distinct = distinct (program text, plan)".to_string()
     }
     fn assumptions(&self) -> Vec<String> {
         vec![
-            "slice: positions of failing calls, stack-trace lines and lexical errors; parse-error, undefined-name and operator positions need a wrong script (input generation) and are not covered".into(),
+            "slice: positions of failing calls, stack-trace lines, lexical errors, and - through corruption of one stored byte - an undefined name, an operator type error ('+' between strings/lists turned into '-') and a syntax error (stray ',' at statement level); other parse-error shapes and overflow positions need a wrong script (input generation) and are not covered".into(),
             "the printer's position rule is C18's statement: line = 1 + newlines before the token, column = 1 + characters since the last newline; it shares no code with /repo".into(),
             "well-formedness of the diagnostic is C17's business: a stderr that does not parse gives no C18 verdict (counted as 'unparsed')".into(),
         ]
     }
     fn required_probes(&self, _tier: &str) -> Vec<String> {
         vec![
-            "pos:call".into(), "pos:trace".into(), "pos:lex".into(), "pos:undefined-name".into(),
+            "pos:call".into(), "pos:trace".into(), "pos:lex".into(), "pos:undefined-name".into(), "pos:operator".into(), "pos:parse".into(),
             "feat:tab-before".into(), "feat:cr-before".into(), "feat:multibyte-before".into(), "feat:comment-before".into(),
             "feat:multiline-string".into(), "feat:continuation-break".into(), "feat:blank-lines".into(), "feat:same-line-stmt".into(),
         ]
@@ -115,8 +115,17 @@ impl Property for C18 {
             plan = gen_sink_plan(rng, &reference);
         } else if mode < 7 {
             let w2p = crate::w2::build(&p.aux);
-            if let Some(it) = name_flip_item(rng, &w2p) {
+            let it = if rng.chance(1, 2) { op_flip_item(rng, &w2p).or_else(|| name_flip_item(rng, &w2p)) } else { name_flip_item(rng, &w2p) };
+            if let Some(it) = it {
                 plan.items.push(it);
+            }
+        } else if mode < 8 {
+            let w2p = crate::w2::build(&p.aux);
+            if let Some(it) = comma_flip_item(rng, &w2p) {
+                plan.items.push(it);
+                if rng.chance(1, 2) {
+                    plan.items.push(Item::RChunk { seed: rng.next_u64() >> 1, max: 1 + rng.below(8) });
+                }
             }
         } else {
             let w2p = crate::w2::build(&p.aux);
@@ -155,6 +164,17 @@ impl Property for C18 {
             let sp = match w2.spaces.iter().find(|s| s.off == off) {
                 Some(s) => s,
                 None => {
+                    // corrupted operator: a type error at a known operator token
+                    if let Some(x) = locate_op_fault(&w2, off) {
+                        return match x {
+                            Some(fd) => {
+                                out.nontrivial = true;
+                                out.probes.push("pos:operator".into());
+                                check_positions(&w2, &fd, &r, case, "operator", out)
+                            }
+                            None => out,
+                        };
+                    }
                     // corrupted call name: an undefined-name failure at a known call
                     return match locate_name_fault(&w2, off) {
                         Some(Some(fd)) => {
@@ -170,18 +190,23 @@ impl Property for C18 {
                     };
                 }
             };
+            let comma = bytes.as_slice() == b",";
+            if comma && !sp.stmt_level {
+                out.skipped = Some("comma-flip-inside-brackets".into());
+                return out;
+            }
             out.nontrivial = true;
             let first = r.stderr.split(|b| *b == b'\n').next().unwrap_or(b"");
             match diag::parse_head(&String::from_utf8_lossy(first), &String::from_utf8_lossy(&r.argv1)) {
                 None => out.probes.push("unparsed".into()),
                 Some(h) => {
-                    out.probes.push("pos:lex".into());
-                    out.cells.push(format!("lex:{}", if bytes.len() > 1 { "multibyte" } else { "ascii" }));
+                    out.probes.push(if comma { "pos:parse".into() } else { "pos:lex".into() });
+                    out.cells.push(if comma { "parse:comma".to_string() } else { format!("lex:{}", if bytes.len() > 1 { "multibyte" } else { "ascii" }) });
                     if (h.line, h.col) != (sp.line, sp.col) {
                         out.violation = Some(Violation {
                             clause: clause.into(),
-                            signature: "lex-position".into(),
-                            detail: format!("lexical error reported at {}:{}, the corrupted byte is at {}:{} (offset {}); plan=[{}]", h.line, h.col, sp.line, sp.col, off, case.plan.encode_items()),
+                            signature: if comma { "parse-position".into() } else { "lex-position".into() },
+                            detail: format!("lexical/syntax error reported at {}:{}, the corrupted byte is at {}:{} (offset {}); plan=[{}]", h.line, h.col, sp.line, sp.col, off, case.plan.encode_items()),
                             expected: format!("{}:{}", sp.line, sp.col),
                             observed: format!("{}:{} stderr={:?}", h.line, h.col, oracle::show(&r.stderr)),
                         });
